@@ -318,6 +318,9 @@ def run(rep: Report, tier: str) -> None:
         rep.add(Finding("R11.6", f"R11.6/memo/{f_.qualname}", f_.module.rel, line_, f_.qualname,
                         f"{f_.name} is memoised and {why_}: the result type reported for an operator then depends on which call of the same operand types was analysed first"))
     rep.instance("R11.6", "memoised-type-rules", nontrivial=False, sample={"findings": nmem})
+    # ---- R11.10: the result type of an n-ary set operator is the promotion of all its operands, in any order ----
+    rep.rule("R11.10", "Set.validate evaluated on three operands over type / nullability triples: result type == pairwise fold of binary_implicit_promotion, nullable == any operand nullable")
+    set_operator_result(P, rep, "R11.10")
     rep.assumptions = ["each operator's declared type_to_check is taken as given (no in-repo oracle says which type an "
                        "operator should admit)", "docs/data_types.rst is the oracle for the implicit table"]
     rep.floor("decision-table cells", ncell, 1800)
@@ -570,3 +573,51 @@ def purity(P: Program, rep: Report) -> None:
         for line, msg in bad:
             rep.add(Finding("R11.6", f"R11.6/{fname}/{msg.split('`')[1][:40]}", f.module.rel, line, f.qualname,
                             f"promotion function is not pure: {msg}"))
+
+
+def set_operator_result(P: Program, rep: Report, rule: str) -> None:
+    """Set.validate (union / intersect / setdiff / symdiff) evaluated on three operands whose measure has types (t1, t2, t3) and nullability
+    (n1, n2, n3) in every order: the result type is the promotion of ALL operand types (the same for every order of the operands, equal to
+    the pairwise fold of binary_implicit_promotion) and the result is nullable iff some operand is.  Shared with C10."""
+    import itertools as _it
+    from sa import structmodel as _sm
+    from sa.e6 import Interp as _I, Raised as _R, Unmodelled as _U
+    M = _sm.Model(P)
+    fv = P.func("vtlengine.Operators.Set.Set.validate")
+    fp = P.func("vtlengine.DataTypes.binary_implicit_promotion")
+    dt = "vtlengine.DataTypes."
+
+    def promote(a: Any, b: Any) -> Any:
+        return _I(P, max_steps=20000).call(fp, {"left_type": a, "right_type": b})
+    n = 0
+    shown = 0
+    for types in (("Integer", "Number", "Integer"), ("Integer", "Integer", "Number"), ("Number", "Integer", "Integer"), ("Integer", "Integer", "Integer"), ("String", "String", "String")):
+        for nulls in ((False, True, False), (False, False, False), (True, False, False), (False, False, True)):
+            ops = []
+            for k, (t, nl) in enumerate(zip(types, nulls)):
+                d = M.ds(f"DS_{k + 1}", ["Id_1"], ["Me_1"])
+                d.components["Me_1"].data_type = ClassVal(dt + t)
+                d.components["Me_1"].nullable = nl
+                ops.append(d)
+            ext = {"cls.check_same_structure": lambda a, b: None, "Dataset": M.mk_dataset, "isinstance": _sm._isinstance,
+                   "copy": lambda x: _sm.MComp(x.name, x.role, x.data_type, x.nullable) if isinstance(x, _sm.MComp) else x}
+            try:
+                res = _I(P, externals=ext, max_steps=40000).call(fv, {"operands": ops}, bound_cls=ClassVal("vtlengine.Operators.Set.Union"))
+                got = (getattr(res.components["Me_1"].data_type, "short", str(res.components["Me_1"].data_type)), res.components["Me_1"].nullable)
+            except _R as r:
+                got = (f"<raises {getattr(r.exc, 'code', None)}>", None)
+            except _U as e:
+                raise AnalysisError(f"{rule}: Set.validate outside the evaluator's language: {e}")
+            want_t = promote(promote(ClassVal(dt + types[0]), ClassVal(dt + types[1])), ClassVal(dt + types[2]))
+            want = (getattr(want_t, "short", str(want_t)), any(nulls))
+            n += 1
+            if n <= 3:
+                rep.instance(rule, f"set-result/{'+'.join(types)}/{nulls}", nontrivial=True, sample={"types": list(types), "nullable": list(nulls), "result": list(got)})
+            if got != want and shown < 3:
+                shown += 1
+                rep.add(Finding(rule, f"{rule}/set-result/{'+'.join(types)}/{'+'.join(str(int(x)) for x in nulls)}", fv.module.rel, fv.node.lineno, fv.qualname,
+                                f"union of three datasets whose measure has the types {list(types)} and nullability {list(nulls)}: semantic analysis declares ({got[0]}, nullable={got[1]}), "
+                                f"the promotion of all operand types gives ({want[0]}, nullable={want[1]}): the declared type depends on the order of the operands and the returned data "
+                                f"(a 1.5, a null) do not conform to it"))
+    rep.instance(rule, "set-result/cells", nontrivial=True, sample={"cells": n})
+    rep.floor(f"{rule} set-operator cells", n, 20)
